@@ -81,7 +81,7 @@ namespace
   void slip_vectors(verif::Ctx& c, const std::string& kname)
   {
     const int N = c.thorough ? 5 : 4;
-    for(int n = 0; n <= N; ++n) for(unsigned S = 0; S < (1u << n); ++S) for(int order = 0; order < NUM_ORD; ++order) for(int fd = 0; fd < FD_CONVERT; ++fd) for(int nv = 0; nv < 6; ++nv) for(int op = 0; op < 4; ++op)
+    for(int n = 0; n <= N; ++n) for(unsigned S = 0; S < (1u << n); ++S) for(int order = 0; order < NUM_ORD; ++order) for(int fd = 0; fd < NUM_FD; ++fd) for(int nv = 0; nv < 6; ++nv) for(int op = 0; op < 4; ++op)
     {
       if(order == ORD_ARRAY) continue;
       if(order == ORD_DEFAULT && S != 0) continue;
@@ -92,13 +92,30 @@ namespace
       c.desc([&]{ return kname + " blocks=" + std::to_string(n) + " constrained=" + set_name(S, n) + " built by: " + ord_name[order] + " normals#" + std::to_string(nv) + " op=" + fop_name[op]; });
       RSlip ref, rtwin, rother;
       std::vector<std::shared_ptr<void>> keep;
-      auto f = derive_filter(make_slip<DT, BS>(n, S, order, nv, ref), fd, keep, [&]{ return make_slip<DT, BS>(n, ~S & ((1u << n) - 1u), ORD_ASC, 1, rother); });
+      typedef typename std::conditional<std::is_same<DT, double>::value, float, double>::type DT2;
+      SlipFilter<DT, Index, BS> f;
+      if(fd == FD_CONVERT)
+      {
+        auto src = std::make_shared<SlipFilter<DT2, Index, BS>>(make_slip<DT2, BS>(n, S, order, nv, ref)); keep.push_back(src);
+        f = make_slip<DT, BS>(n, ~S & ((1u << n) - 1u), ORD_ASC, 1, rother);
+        f.convert(*src);
+      }
+      else
+        f = derive_filter(make_slip<DT, BS>(n, S, order, nv, ref), fd, keep, [&]{ return make_slip<DT, BS>(n, ~S & ((1u << n) - 1u), ORD_ASC, 1, rother); });
       DenseVectorBlocked<DT, Index, BS> v{Index(n)};
       for(int i = 0; i < n * BS; ++i) v.template elements<Perspective::pod>()[i] = DT(xval(Index(i), 2));
       // the filter operation is the first access to the freshly built (unsorted) filter
       check_vec(c, kname, f, v, op, [&](Ref& r) { ref.template apply<DT>(r, op); }, slip_cons<DT>(c, ref));
       auto twin = make_slip<DT, BS>(n, S, order == ORD_DEFAULT ? ORD_DEFAULT : ORD_ASC, nv, rtwin);
       c.check(order == ORD_DEFAULT || sv_state(f.get_filter_vector()) == sv_state(twin.get_filter_vector()), kname + ": filter modified by application", "index/normal arrays of the filter differ from those of an identically specified filter");
+      // accessors of the filter
+      if(order != ORD_DEFAULT)
+      {
+        bool acc = (f.size() == Index(n)) && (f.used_elements() == Index(ref.nu.size()));
+        size_t q = 0;
+        for(auto& e : ref.nu) { if(acc && (f.get_indices()[q] != e.first)) acc = false; for(int j = 0; acc && j < BS; ++j) if(!(LD(f.get_values()[q][j]) == e.second[size_t(j)])) acc = false; ++q; }
+        c.check(acc, kname + ": accessors", "size()/used_elements()/get_indices()/get_values() do not describe the constrained set and its normals");
+      }
       if(fd != FD_NONE) c.count("cases_on_derived_filters");
       if(S != 0) c.nontrivial(verif::Hash().str(kname).pod(n).pod(S).pod(order).pod(fd).pod(nv).pod(op).get());
       c.outcome("slip vector");
@@ -221,6 +238,7 @@ namespace
       if(!c.want()) continue;
       c.desc([&]{ return kname + " blocks=" + std::to_string(n) + " weights#" + std::to_string(wv) + "(+component) sol_mean=" + (sm ? "(1.5,-0.5,..)" : "0") + " ctor=" + std::to_string(ctor) + " op=" + fop_name[op]; });
       std::vector<RMean> refs((size_t)BS);
+      std::vector<std::shared_ptr<void>> keep_alive;
       Vec p{Index(n)}, d{Index(n)}, v{Index(n)};
       VT smv(DT(0)), volv(DT(0));
       for(int j = 0; j < BS; ++j)
@@ -240,7 +258,34 @@ namespace
       if(ctor == 0) f = MeanFilterBlocked<DT, Index, BS>(std::move(p), std::move(d), smv);
       else if(ctor == 1) f = MeanFilterBlocked<DT, Index, BS>(std::move(p), std::move(d), smv, volv);
       // derived object / re-invocation, rotating with the coordinates: deep clone, shallow clone, previously used filter
-      if(ctor != 2 && n > 0 && (n + wv + op) % 3 == 0) { MeanFilterBlocked<DT, Index, BS> g = f.clone((n + wv) % 2 ? CloneMode::Deep : CloneMode::Shallow); f = std::move(g); c.count("cases_on_derived_filters"); }
+      if(ctor != 2 && n > 0)
+      {
+        static const int rot[5] = {FD_NONE, FD_CLONE_DEEP, FD_CLONE_SHALLOW, FD_CLONE_INTO, FD_MOVE_ASSIGN};   // FD_CLEAR_REASSIGN: MeanFilterBlocked::clear() does not compile (proposed fix pending)
+        const int fdm = rot[(n + wv + op) % 5];
+        std::vector<std::shared_ptr<void>> keepb;
+        if(fdm != FD_NONE)
+        {
+          f = derive_filter(std::move(f), fdm, keepb, [&]{ Vec p2(Index(n), DT(1)), d2(Index(n), DT(1)); return MeanFilterBlocked<DT, Index, BS>(std::move(p2), std::move(d2), VT(DT(0.5))); });
+          keep_alive.insert(keep_alive.end(), keepb.begin(), keepb.end());
+          c.count("cases_on_derived_filters");
+        }
+#ifdef C06_HAVE_MEANB_FIX
+        if((n + wv + op) % 5 == 0 && (sm + ctor) % 2 == 1)
+        {
+          // convert() from the other data type (weights, volume and sol_mean are exactly representable in both) and clear()
+          typedef typename std::conditional<std::is_same<DT, double>::value, float, double>::type DT2;
+          typedef DenseVectorBlocked<DT2, Index, BS> Vec2;
+          Vec2 p2{Index(n)}, d2{Index(n)};
+          for(int i = 0; i < n * BS; ++i) { p2.template elements<Perspective::pod>()[i] = DT2(f.get_vec_prim().template elements<Perspective::pod>()[i]); d2.template elements<Perspective::pod>()[i] = DT2(f.get_vec_dual().template elements<Perspective::pod>()[i]); }
+          Tiny::Vector<DT2, BS> sm2, vol2; for(int j = 0; j < BS; ++j) { sm2[j] = DT2(smv[j]); vol2[j] = DT2(volv[j]); }
+          auto src = std::make_shared<MeanFilterBlocked<DT2, Index, BS>>(std::move(p2), std::move(d2), sm2, vol2);
+          keep_alive.push_back(src);
+          f.clear();
+          f.convert(*src);
+          c.count("cases_on_derived_filters");
+        }
+#endif
+      }
       if((n + wv + sm + op) % 2 == 1)
       {
         Vec w{Index(n)}; for(int i = 0; i < n * BS; ++i) w.template elements<Perspective::pod>()[i] = DT(xval(Index(i), 9));
@@ -276,7 +321,29 @@ namespace
       ref.exact = is_pow2(ref.vol);
       Vec p{Index(n)}, d{Index(n)}, v{Index(n)}, fr{Index(fq == 0 ? 0 : n)};
       for(int i = 0; i < n; ++i) { p.elements()[i] = DT(ref.prim[size_t(i)]); d.elements()[i] = DT(ref.dual[size_t(i)]); v.elements()[i] = DT(xval(Index(i), 6)); if(fq != 0) fr.elements()[i] = DT((fq == 2 && i % 2) ? 0.5 : 1.0); }
-      Global::MeanFilter<DT, Index> f(std::move(p), std::move(d), std::move(fr), cm ? &world : nullptr);
+      Global::MeanFilter<DT, Index> f0(std::move(p), std::move(d), std::move(fr), cm ? &world : nullptr);
+      // derived objects, rotating: as built (move-constructed), clone(mode), clone(other) into a used filter, move-assigned, convert from float/double
+      Global::MeanFilter<DT, Index> f;
+      std::shared_ptr<void> gkeep;
+      switch((n + wv + fq + cm + op) % 5)
+      {
+      case 1: f = f0.clone(LAFEM::CloneMode::Deep); c.count("cases_on_derived_filters"); break;
+      case 2: { Vec a1(Index(n), DT(1)), a2(Index(n), DT(1)), a3; f = Global::MeanFilter<DT, Index>(std::move(a1), std::move(a2), std::move(a3), nullptr); f.clone(f0, LAFEM::CloneMode::Deep); c.count("cases_on_derived_filters"); break; }
+      case 3: { Vec a1(Index(n), DT(1)), a2(Index(n), DT(1)), a3; f = Global::MeanFilter<DT, Index>(std::move(a1), std::move(a2), std::move(a3), nullptr); f = std::move(f0); c.count("cases_on_derived_filters"); break; }
+      case 4:
+      {
+        typedef typename std::conditional<std::is_same<DT, double>::value, float, double>::type DT2;
+        typedef DenseVector<DT2, Index> Vec2;
+        Vec2 q1{Index(n)}, q2{Index(n)}, q3{Index(fq == 0 ? 0 : n)};
+        for(int i = 0; i < n; ++i) { q1.elements()[i] = DT2(ref.prim[size_t(i)]); q2.elements()[i] = DT2(ref.dual[size_t(i)]); if(fq != 0) q3.elements()[i] = DT2((fq == 2 && i % 2) ? 0.5 : 1.0); }
+        auto src = std::make_shared<Global::MeanFilter<DT2, Index>>(std::move(q1), std::move(q2), std::move(q3), cm ? &world : nullptr);
+        gkeep = src;
+        f.convert(*src);
+        c.count("cases_on_derived_filters");
+        break;
+      }
+      default: f = Global::MeanFilter<DT, Index>(std::move(f0)); break;
+      }
       if(n > 0) c.check(LD(f.get_volume()) == ref.vol, kname + ": volume", [&]{ return "stored volume " + fmt(f.get_volume()) + " expected " + fmt(double(ref.vol)); });
       check_vec(c, kname, f, v, op, [&](Ref& r) { ref.template apply<DT>(r, op); }, mean_cons<DT>(c, refs, op));
       if(n > 0) c.nontrivial(verif::Hash().str(kname).pod(n).pod(wv).pod(fq).pod(cm).pod(op).get());
